@@ -647,7 +647,18 @@ func writeReplay(P *Prog, o *Obligation, prop, path string, e *FnExec) bool {
 	if e != nil && e.fn != nil && e.fn.Pkg != nil {
 		pkgPath = e.fn.Pkg.Pkg.Path()
 	}
-	if o.Model != nil && pkgPath != "" {
+	// Without a model (unknown/timeout) a template may still be run if it declares itself a fixed
+	// history that needs no model values ("replay: fixed history" in its text): the obligation
+	// names the broken invariant, the template is a concrete history that breaks it on the real code.
+	fixed := false
+	if o.Model == nil && pkgPath != "" {
+		if data, err := os.ReadFile(templatePath(P.verif, o.Func)); err == nil && strings.Contains(string(data), "replay: fixed history") {
+			fixed = true
+			o.Model = map[string]string{}
+			rep["replay_kind"] = "fixed history (the solver gave no model)"
+		}
+	}
+	if (o.Model != nil || fixed) && pkgPath != "" {
 		src, out, ok := runReplay(P, o, pkgPath)
 		rep["replay_test_source"] = src
 		rep["replay_output"] = out
